@@ -403,7 +403,9 @@ class CellConversion:
             new_node.extend(surf for surf in t4_ids)
         return GeomExpression(new_node)
 
-    def pot_complement(self, tree):
+    def pot_complement(self, tree, universe=None):
+        '''Replace the cell complements in `tree`, which is (part of) the
+        geometry of a cell of universe `universe`.'''
         if not isinstance(tree, (list, tuple)):
             return tree
         if tree[0] == '^':
@@ -411,19 +413,24 @@ class CellConversion:
             # of the cell (see GeomExpression.inverse()), i.e. the cell itself
             cell_id = int(tree[1])
             cell = self.dic_cell_mcnp[abs(cell_id)]
-            if cell.lattice is not None:
-                # This is a complement of a lattice! What does that even mean
+            if cell.lattice is not None and (universe is None
+                                             or cell.universe == universe):
+                # This is a complement of a lattice, in the universe that the
+                # lattice fills entirely! What does that even mean
                 # We return a patently empty cell, which hopefully will later
-                # be optimised away by pot_optimise
+                # be optimised away by pot_optimise. (On a card of another
+                # universe, #n is the complement of the expression on card n,
+                # as for any other cell.)
                 surfaces = extract_surfaces_list(cell.geometry)
                 assert len(surfaces) >= 1  # otherwise things are REALLY weird
                 return ['*', surfaces[0], -surfaces[0]]
-            new_geom = self.pot_complement(cell.geometry)
+            new_geom = self.pot_complement(cell.geometry, cell.universe)
             if cell_id < 0:
                 return new_geom
             return new_geom.inverse()
         new_tree = [tree[0]]
-        new_tree.extend(self.pot_complement(node) for node in tree[1:])
+        new_tree.extend(self.pot_complement(node, universe)
+                        for node in tree[1:])
         result = GeomExpression(new_tree)
         return result
 
